@@ -107,7 +107,7 @@ func checkC16(c *Ctx, e *Env) {
 	ruleC16Mgr(c, m)
 	ruleC16Every(c, m)
 	ruleC16Stateless(c, m)
-	importObligations(c, e, checkC15, "C15", "C16.IRI", "data ids#one-per-content-hash", "anchors, attestations and registrations are kept per data id, and the data id is looked up by IRI: two different content hashes keep separate permanent records only if the encoders give them different IRIs", func(o *Oblig) bool { return o.Rule == "C15.CODEC" || o.Rule == "C15.NARROW" })
+	importObligations(c, e, checkC15, "C15", "C16.IRI", "data ids#one-per-content-hash", "anchors, attestations and registrations are kept per data id, and the data id is looked up by IRI: two different content hashes keep separate permanent records only if the encoders give them different IRIs", func(o *Oblig) bool { return o.Rule == "C15.CODEC" || o.Rule == "C15.NARROW" || o.Rule == "C15.LOOKUP" || o.Rule == "C15.IDENT" })
 }
 
 // ruleC16Every: every content hash named in a successful Attest / RegisterResolver message is dealt
